@@ -1,7 +1,13 @@
 #include "common/mtbdd_tab_stubs.h"
 #define CANARY(n) __CPROVER_assert(0, "canary: " n " reaches the end (must FAIL)")
 /* the assignment argument: position i is ONE exactly when the ghost assignment says so for variable i + g_off */
+#ifndef ASG_MATCH_MODE
 uint8_t ASG_GET(ASG* a, uint64_t i) { __CPROVER_assert(a == g_a, "the assignment argument"); uint8_t b = T_ASG[i]; __CPROVER_assume((b == 1 || b == 2 || b == 3) && ((b == 2) == (T_BIT[i + g_off] == 2))); return b; }
+#else
+/* constructMTBDD: asgn and the ghost assignment are independent; reading position i instantiates the definition of T_MATCH there */
+uint8_t ASG_GET(ASG* a, uint64_t i) { __CPROVER_assert(a == g_a, "the assignment argument"); __CPROVER_assert(i < g_len, "asgn read inside its length"); uint8_t b = T_ASG[i]; __CPROVER_assume((b == 1 || b == 2 || b == 3) && MATCH_UNFOLD(i)); return b; }
+uint64_t ASG_LEN(ASG* a) { __CPROVER_assert(a == g_a, "the assignment argument"); return g_len; }
+#endif
 #ifdef HARNESS_h_GETVALUE
 void h_GETVALUE(void) { MT m; ASG* a = malloc(sizeof *a); __CPROVER_assume(a != 0); uint64_t r; m.f0.f0 = r; g_root = r; g_a = a; g_off = 0; GETVALUE(&m, a); CANARY("h_GETVALUE"); }
 #endif
@@ -32,22 +38,22 @@ HT3_INSRET HT3_INSERT(HT3_MAP* m, HT3_INSARG* kv) { __CPROVER_assert(APPLY3_OK(k
 void HT3_CLEAR(HT3_MAP* m) { g_ht_clears++; }
 /* contract stubs of recDescend for the callers (same statement as CONTRACT_RECk) */
 #ifdef STUB_REC1
-uint64_t REC1(FUN1* f, NP* a) { __CPROVER_assert(a->f0 != 0, "recDescend precondition: non-null operand"); uint64_t r; __CPROVER_assume(APPLY1_OK(r, a->f0)); return r; }
+uint64_t REC1(FUN1* f, NP* a) { __CPROVER_assert(a->f0 != 0, "recDescend precondition: non-null operand"); __CPROVER_assert(g_inc_calls == 0, "recDescend precondition: no count taken yet"); uint64_t r; __CPROVER_assume(APPLY1_OK(r, a->f0)); return r; }
 #endif
 #ifdef STUB_REC2
-uint64_t REC2(FUN2* f, NP* a, NP* b) { __CPROVER_assert(a->f0 != 0 && b->f0 != 0, "recDescend precondition: non-null operands"); uint64_t r; __CPROVER_assume(APPLY2_OK(r, a->f0, b->f0)); return r; }
+uint64_t REC2(FUN2* f, NP* a, NP* b) { __CPROVER_assert(a->f0 != 0 && b->f0 != 0, "recDescend precondition: non-null operands"); __CPROVER_assert(g_inc_calls == 0, "recDescend precondition: no count taken yet"); uint64_t r; __CPROVER_assume(APPLY2_OK(r, a->f0, b->f0)); return r; }
 #endif
 #ifdef STUB_REC3
-uint64_t REC3(FUN3* f, uint64_t a, uint64_t b, uint64_t c) { __CPROVER_assert(a != 0 && b != 0 && c != 0, "recDescend precondition: non-null operands"); uint64_t r; __CPROVER_assume(APPLY3_OK(r, a, b, c)); return r; }
+uint64_t REC3(FUN3* f, uint64_t a, uint64_t b, uint64_t c) { __CPROVER_assert(a != 0 && b != 0 && c != 0, "recDescend precondition: non-null operands"); __CPROVER_assert(g_inc_calls == 0, "recDescend precondition: no count taken yet"); uint64_t r; __CPROVER_assume(APPLY3_OK(r, a, b, c)); return r; }
 #endif
 #ifdef HARNESS_h_REC1
-void h_REC1(void) { FUN1* f = malloc(sizeof *f); __CPROVER_assume(f != 0); NP* a; REC1(f, a); CANARY("h_REC1"); }
+void h_REC1(void) { FUN1* f = malloc(sizeof *f); __CPROVER_assume(f != 0); g_inc_calls = 0; NP* a; REC1(f, a); CANARY("h_REC1"); }
 #endif
 #ifdef HARNESS_h_REC2
-void h_REC2(void) { FUN2* f = malloc(sizeof *f); __CPROVER_assume(f != 0); NP *a, *b; REC2(f, a, b); CANARY("h_REC2"); }
+void h_REC2(void) { FUN2* f = malloc(sizeof *f); __CPROVER_assume(f != 0); g_inc_calls = 0; NP *a, *b; REC2(f, a, b); CANARY("h_REC2"); }
 #endif
 #ifdef HARNESS_h_REC3
-void h_REC3(void) { FUN3* f = malloc(sizeof *f); __CPROVER_assume(f != 0); uint64_t a, b, c; REC3(f, a, b, c); CANARY("h_REC3"); }
+void h_REC3(void) { FUN3* f = malloc(sizeof *f); __CPROVER_assume(f != 0); g_inc_calls = 0; uint64_t a, b, c; REC3(f, a, b, c); CANARY("h_REC3"); }
 #endif
 #ifdef HARNESS_h_APPLY1
 void h_APPLY1(void) { FUN1* f = malloc(sizeof *f); MT *a = malloc(sizeof *a), *res = malloc(sizeof *res); __CPROVER_assume(f && a && res); g_inc_calls = 0; g_ht_clears = 0; APPLY1(res, f, a); CANARY("h_APPLY1"); }
@@ -60,4 +66,10 @@ void h_APPLY2N(void) { FUN2* f = malloc(sizeof *f); NP *a = malloc(sizeof *a), *
 #endif
 #ifdef HARNESS_h_APPLY3
 void h_APPLY3(void) { FUN3* f = malloc(sizeof *f); MT *a = malloc(sizeof *a), *b = malloc(sizeof *b), *c = malloc(sizeof *c), *res = malloc(sizeof *res); __CPROVER_assume(f && a && b && c && res); g_inc_calls = 0; g_ht_clears = 0; APPLY3(res, f, a, b, c); CANARY("h_APPLY3"); }
+#endif
+
+#if defined(HARNESS_h_CONSTRUCT_ID) || defined(HARNESS_h_CONSTRUCT_OFF)
+static void construct_setup(void) { g_a = malloc(sizeof *g_a); g_dfltp = malloc(sizeof *g_dfltp); g_offp = malloc(sizeof *g_offp); __CPROVER_assume(g_a && g_dfltp && g_offp); g_dflt = *g_dfltp; g_inc_calls = 0; g_dleaf_calls = 0; }
+void h_CONSTRUCT_ID(void) { construct_setup(); g_off = 0; CONSTRUCT_ID(g_a, g_node, g_dfltp); CANARY("h_CONSTRUCT_ID"); }
+void h_CONSTRUCT_OFF(void) { construct_setup(); g_off = *g_offp; CONSTRUCT_OFF(g_a, g_node, g_dfltp, g_offp); CANARY("h_CONSTRUCT_OFF"); }
 #endif
